@@ -170,14 +170,6 @@ def number_ids(seq):
     return out
 
 
-def gen_exhaustive(length):
-    hs = []
-    for mm in (1, 2):
-        for seq in itertools.product(EXH_ALPHA, repeat=length):
-            hs.append(["NEW 1024 %d" % mm] + number_ids(seq))
-    return hs
-
-
 def gen_random(rng, count, max_ops):
     hs = []
     lens = [0, 1, 2, 3, 7, 100]
@@ -204,8 +196,8 @@ def gen_random(rng, count, max_ops):
                 h.append("NO")
             else:
                 ln = rng.choice(lens + [U64 - 1, 1 << 63])
-                sg = rng.choice([0, 1, 2, rng.below(12), na // 2, na, U64 - 1, U64 - 2, 1 << 63, 1 << 32])
-                off = rng.choice([0, 1, rng.below(na + 2), na, na + 1, U64 - 1 - ln, (U64 - 1 - ln) // 2, 1 << 32])
+                sg = rng.choice([0, 1, 2, 3, rng.below(6), rng.below(12), rng.below(30), na // 2, U64 - 1, 1 << 63])
+                off = rng.choice([0, 1, rng.below(na + 2), rng.below(na + 2), na, na + 1, U64 - 1 - ln, (U64 - 1 - ln) // 2, 1 << 32])
                 if off + ln >= U64:
                     off = U64 - 1 - ln
                 h.append("R %d %d %d" % (sg, off, ln))
@@ -311,11 +303,11 @@ def run(ctx):
         "equality of the Rust code with the Coq model is established by the correspondence run only (exhaustive small scope + random), not by proof",
     ]
     exh_len = 7 if ctx.thorough() else 6
-    nrand = 40000 if ctx.thorough() else 1500
+    nrand = 40000 if ctx.thorough() else 4000
     max_ops = 200 if ctx.thorough() else 110
     ctx.cov["rule"] = (
         "history = NEW cfg followed by ops A(id,size) | RP(k,len) read from the k-th cursor of the pool of issued cursors | R(seg,off,len) read from a literal (fabricated) cursor | NO. "
-        "exhaustive: every op sequence of length %d (hence every shorter prefix) over the alphabet %s, max_segment_size 1024, max_mem in {1,2}; "
+        "exhaustive: NEW, NO (so the pool starts with the cursor (0,0)) followed by every op sequence of length %d (hence every shorter prefix) over the alphabet %s, max_segment_size 1024, max_mem in {1,2}; "
         "random: %d histories of 10..%d ops, max_segment_size in {1024,2048,4000}, max_mem in {1,2,3,10}, sizes in {0,1,~seg/3,seg-1,seg,seg+500,3*seg}, len in {0,1,2,3,7,100}, fabricated cursors incl. values near 2^64 (off+len < 2^64); plus corpus/log/*. "
         "Every history runs on the real CommitLog and on the extracted Coq model (answers compared line by line) and the C13 monitor (independent abstract reference) is evaluated on the implementation's answers. "
         "non-trivial = history containing a pool read whose returned entries span more than one segment, or a pool read from a cursor whose segment had been evicted; distinct histories counted by hash of their op text."
@@ -339,7 +331,7 @@ def run(ctx):
         cur = []
         for mm in (1, 2):
             for seq in itertools.product(EXH_ALPHA, repeat=exh_len):
-                cur.append(["NEW 1024 %d" % mm] + number_ids(seq))
+                cur.append(["NEW 1024 %d" % mm, "NO"] + number_ids(seq))
                 if len(cur) >= 120000:
                     yield "exhaustive", cur
                     cur = []
